@@ -94,10 +94,6 @@ func (p Precompile) Run(evm *vm.EVM, contract *vm.Contract, readOnly bool) (bz [
 	// It avoids panics and returns the out of gas error so the EVM can continue gracefully.
 	defer cmn.HandleGasError(ctx, contract, initialGas, &err)()
 
-	if err := stateDB.Commit(); err != nil {
-		return nil, err
-	}
-
 	switch method.Name {
 	// TODO Approval transactions => need cosmos-sdk v0.46 & ibc-go v6.2.0
 	// Authorization Methods:
